@@ -488,11 +488,12 @@ impl AddressLookupServices {
     ///
     /// If there is historical Address Lookup data, it will be published immediately on this service.
     pub fn add_boxed(&self, service: Box<dyn AddressLookup>) {
-        {
-            let data = self.last_data.read().expect("poisoned");
-            if let Some(data) = &*data {
-                service.publish(data)
-            }
+        // Hold `last_data` until the service is registered: `publish` takes it for
+        // writing first, so no publish can run between reading the last data and
+        // registering the service (which would leave the new service with stale data).
+        let data = self.last_data.read().expect("poisoned");
+        if let Some(data) = &*data {
+            service.publish(data)
         }
         self.services.write().expect("poisoned").push(service);
     }
@@ -519,15 +520,16 @@ impl AddressLookupServices {
             Some(filter) => data.apply_filter(filter),
             None => Cow::Borrowed(data),
         };
+        // Taking `last_data` for writing first (same lock order as `add_boxed`)
+        // serializes concurrent publishers, so that all services and `last_data`
+        // end up with the same data, and excludes a concurrent `add_boxed`.
+        let mut last_data = self.last_data.write().expect("poisoned");
         let services = self.services.read().expect("poisoned");
         for service in &*services {
             service.publish(&data);
         }
 
-        self.last_data
-            .write()
-            .expect("poisoned")
-            .replace(data.into_owned());
+        last_data.replace(data.into_owned());
     }
 
     /// Resolves the addressing information for an [`EndpointId`] across all configured services.
